@@ -32,7 +32,7 @@ def gen_fn_scenario(rng: random.Random, static_only=True, simple_sigs=False, bod
     npos = rng.randint(1, 3)
     uniform = rng.random() < 0.6
     posonly_all = rng.random() < 0.2
-    kwnames = [KW_BASE, KW_BASE + 1] if (not simple_sigs and rng.random() < 0.35) else []
+    kwnames = [KW_BASE, KW_BASE + 1] if ((not simple_sigs or type_args) and rng.random() < 0.35) else []
     nmeth = rng.randint(1, 6)
     pool_types = [g.gen(1) for _ in range(rng.randint(2, 5))]
     if rng.random() < 0.6:
@@ -189,6 +189,14 @@ def gen_fn_scenario(rng: random.Random, static_only=True, simple_sigs=False, bod
                 break
             else:
                 pos.append(v)
+        # a gap: an optional named positional is omitted and a later optional one is given by keyword (the library
+        # documents several optional positionals as positional-only: such a call must be rejected, never served
+        # with the keyword dropped)
+        opt_named = [j for j, p in enumerate(pp) if not p["req"] and p["kind"] == "pk"]
+        if len(opt_named) >= 2 and rng.random() < 0.3:
+            first, later = opt_named[0], rng.choice(opt_named[1:])
+            pos = [rng.choice(fit(pp[j]["ty"]) or [rng.randrange(len(args))]) for j in range(first)]
+            kw = [[pp[later]["name"], rng.choice(fit(pp[later]["ty"]) or [rng.randrange(len(args))])]]
         for p in m["params"]:
             if p["kind"] == "ko" and (p["req"] or rng.random() < 0.5) and rng.random() < 0.9:
                 cands = fit(p["ty"]) if rng.random() < 0.9 else []
